@@ -19,6 +19,18 @@ CLAIMS = {
    text="Lean theorems quantified over EVERY kernel oracle that merely never moves more than asked or past EOF: whatever short counts it returns at whichever call, whether copy_file_range answers ENOSYS/EXDEV/EPERM (also mid-block), read answers EINTR, on the Linux or the fallback backend, a loop that reports success has moved exactly the requested range (else it fails; a short pwrite is a failure); errno classification of copy_file_range and FICLONE stated outright; FIEMAP unsupported => whole file. Tied to /repo by a ptrace supervisor that lowers length arguments (genuine short transfers) and injects errnos at calls derived from each case's own trace, replaying every file's calls through the compiled model with the kernel's answers, plus libfs linked without the Linux backend.",
    note="Lean kernel, standard axioms only; KernSafe checked on every traced answer; std::io::Write::write_all modelled as one call; the no-Linux-backend build is exercised at the libfs level (libxcp's own dependency re-enables the Linux backend by feature unification).",
    tech="Lean 4 theorems (∀ kernel oracle, induction on fuel) + fault/clamp enumeration with trace-replay correspondence", ref='§3 C05'),
+ 'C10': dict(
+   text="Lean theorems on the model of finalise_copy: for every configuration, every source/destination metadata and EVERY behaviour of chown on the mode bits, the final mode equals the source's 12 bits unless --no-perms, mtime equals the source's nanoseconds unless --no-timestamps, owner/group when --ownership, each source xattr present; with the flags the previous/default values stay; the old order provably loses set-id bits. That finalisation follows the last write on every schedule is the pool invariant (C18). Tied to /repo by end-state comparison against Xcp.finalise (modes incl. set-id/sticky, sub-second/future mtimes, xattrs, uid/gid as root, all flag combinations, fresh/overwritten, both drivers) and a per-file trace monitor proved sound for the model.",
+   note="Lean kernel, standard axioms; Linux chown semantics (clears S_ISUID, S_ISGID if S_IXGRP) enters only the executable comparison, not the theorems; runs as root on ext4; sampling.",
+   tech="Lean 4 theorems (decision logic over the finalisation order, ∀ chown effect) + end-state and trace-monitor correspondence", ref='§3 C10'),
+ 'C14': dict(
+   text="Lean theorems on the model of the walker's kind dispatch and Operation::Special/copy_node: exactly sockets, character devices and FIFOs are recreated; the node has the source's type, st_rdev and mode & ~umask; an existing entry is replaced (unlink, mknod) unless --no-clobber (then nothing is modified and the run fails); block/unknown kinds fail with no call; the call vocabulary has no open of the source. Tied to /repo by real runs as root over kinds x major/minor x modes x umask x tree position x destination kinds x -n x driver, comparing end state and unlink/mknod calls with the model and checking that the source node is never opened.",
+   note="Lean kernel, standard axioms; needs CAP_MKNOD (present); sampling.",
+   tech="Lean 4 theorems (decision logic) + end-state/trace correspondence", ref='§3 C14'),
+ 'C15': dict(
+   text="Lean theorems on tryReflink/classifyClone/fileProgram: never issues no clone whatever the kernel would answer; always succeeds only through a successful clone with no data call and fails when cloning is unsupported, errors or the backend lacks it; auto issues the clone first and on exactly EOPNOTSUPP/EINVAL/EXDEV/ETXTBSY falls back to the data copy (byte-exact by C01/C05); other clone errors fail; the per-file trace monitor accepts every model program (soundness theorem) and is evaluated on real traces. Tied to /repo with FICLONE answered by ext4, by each unsupported errno, by hard errors, or emulated as successful by the supervisor.",
+   note="Lean kernel, standard axioms; successful clone emulated by a whole-file kernel copy; sampling.",
+   tech="Lean 4 theorems (decision logic + monitor soundness) + trace-monitor correspondence with injected/emulated ioctl answers", ref='§3 C15'),
 }
 PENDING = "check not built yet in this session (planned: Lean model + theorems + correspondence, see DESIGN.md §3); not claimed until it runs"
 ALL = [f'C{i:02d}' for i in range(1, 21)]
